@@ -5,6 +5,7 @@ import ast
 import copy
 
 from .core import AnalysisError, norm
+from .canon import _dc
 
 
 def walk_local(node, include_self=True):
@@ -207,7 +208,7 @@ def dominates_structurally(a_stmt, b_node, func):
 
 
 def clone(node):
-    return copy.deepcopy(node)
+    return _dc(node)
 
 
 def func_params(fn):
